@@ -33,6 +33,14 @@ def run_tree(prop):
 
 
 PLANS = {
+    "C01": {"level": "exploration", "run": simple("C01", timeout=7200),
+            "min_evaluations": {"quick": 40, "thorough": 1000}, "min_distinct": {"quick": 40, "thorough": 800}},
+    "C02": {"level": "exploration", "run": simple("C02", timeout=7200),
+            "min_evaluations": {"quick": 1500, "thorough": 30000}, "min_distinct": {"quick": 50, "thorough": 60}},
+    "C12": {"level": "exploration", "run": simple("C12", timeout=7200),
+            "min_evaluations": {"quick": 200, "thorough": 1500}, "min_distinct": {"quick": 40, "thorough": 60}},
+    "C13": {"level": "exploration", "run": simple("C13", timeout=7200),
+            "min_evaluations": {"quick": 3000, "thorough": 60000}, "min_distinct": {"quick": 300, "thorough": 350}},
     "C06": {"level": "exploration", "run": run_tree("C06"),
             "min_evaluations": {"quick": 20000, "thorough": 500000}, "min_distinct": {"quick": 2000, "thorough": 20000}},
     "C07": {"level": "exploration", "run": run_tree("C07"),
